@@ -221,33 +221,51 @@ Lemma sk_srelease : forall v, sem_kind sp_srelease [] (svar v).
 Proof. intros v. semk (svar v) (even_svar v). Qed.
 
 (* ------------------------------------------------------------------ proxies on the reference model *)
-Definition conv_local (o : out) : N + out :=
-  match o with OVal x => inl x | OAttrError => inr ORuntimeError | OInvalid => inr OInvalid | _ => inr OStuck end.
-Definition conv_stack (o : out) : N + out :=
-  match o with OVal x => inl x | ONone => inr ORuntimeError | OInvalid => inr OInvalid | _ => inr OStuck end.
+Lemma conv_local_val : forall x, conv_local (OVal x) = inl x. Proof. reflexivity. Qed.
+Lemma conv_local_attr : conv_local OAttrError = inr ORuntimeError. Proof. reflexivity. Qed.
+Lemma conv_stack_val : forall tw x, conv_stack tw (OVal x) = inl (get_name tw x). Proof. reflexivity. Qed.
+Lemma conv_stack_none : forall tw, conv_stack tw ONone = inr ORuntimeError. Proof. reflexivity. Qed.
+Lemma proxy_out_inl : forall a msg x, proxy_out a msg (inl x) = bound_out a x. Proof. reflexivity. Qed.
+Lemma proxy_out_unb : forall a msg, proxy_out a msg (inr ORuntimeError) = unbound_out a msg. Proof. reflexivity. Qed.
 
-Lemma proxy_local_out : forall sm v name a, kinded_ctx sm ->
-  proxy_out a (conv_local (snd (sp_getattr [name] (rget sm (lvar v))))) = proxy_spec a (bound_in sm (PLocal v name)).
+(* the regenerated fallback table and exception flow give exactly the unbound behaviour of the statement *)
+Lemma unbound_out_spec : forall a msg, unbound_out a msg = proxy_spec a msg None.
 Proof.
-  intros sm v name a K. pose proof (K (lvar v)) as Kv. unfold bound_in, bound_of.
-  destruct (rget sm (lvar v)) as [[d|l]|]; cbn.
-  - destruct (dict_get d name); destruct a; reflexivity.
+  intros a msg. destruct a; vm_compute; reflexivity.
+Qed.
+
+Lemma proxy_local_out : forall sm v name msg a, kinded_ctx sm ->
+  proxy_out a msg (conv_local (snd (sp_getattr [name] (rget sm (lvar v)))))
+  = proxy_spec a msg (bound_in sm (PLocal v name msg)).
+Proof.
+  intros sm v name msg a K. pose proof (K (lvar v)) as Kv. unfold bound_in, bound_of, sp_getattr.
+  destruct (rget sm (lvar v)) as [[d|l]|]; cbn [as_dict snd].
+  - destruct (dict_get d name).
+    + rewrite conv_local_val, proxy_out_inl. reflexivity.
+    + rewrite conv_local_attr, proxy_out_unb. apply unbound_out_spec.
   - specialize (Kv _ eq_refl). cbn in Kv. rewrite even_lvar in Kv. discriminate.
-  - destruct a; reflexivity.
+  - cbn [dict_get]. rewrite conv_local_attr, proxy_out_unb. apply unbound_out_spec.
 Qed.
 
-Lemma proxy_stack_out : forall sm v a, kinded_ctx sm ->
-  proxy_out a (conv_stack (snd (sp_top [] (rget sm (svar v))))) = proxy_spec a (bound_in sm (PStack v)).
+Lemma proxy_stack_out : forall sm v tw msg a, kinded_ctx sm ->
+  proxy_out a msg (conv_stack tw (snd (sp_top [] (rget sm (svar v)))))
+  = proxy_spec a msg (bound_in sm (PStack v tw msg)).
 Proof.
-  intros sm v a K. pose proof (K (svar v)) as Kv. unfold bound_in, bound_of.
-  destruct (rget sm (svar v)) as [[d|l]|]; cbn.
+  intros sm v tw msg a K. pose proof (K (svar v)) as Kv. unfold bound_in, bound_of, sp_top.
+  destruct (rget sm (svar v)) as [[d|l]|]; cbn [as_list snd].
   - specialize (Kv _ eq_refl). cbn in Kv. rewrite even_svar in Kv. discriminate.
-  - destruct (last_opt l); destruct a; reflexivity.
-  - destruct a; reflexivity.
+  - destruct (last_opt l); cbn [option_map].
+    + rewrite conv_stack_val, proxy_out_inl. reflexivity.
+    + rewrite conv_stack_none, proxy_out_unb. apply unbound_out_spec.
+  - cbn [last_opt option_map]. rewrite conv_stack_none, proxy_out_unb. apply unbound_out_spec.
 Qed.
 
-Lemma proxy_spec_not_stuck : forall a b, proxy_spec a b <> OStuck.
-Proof. intros a [x|]; destruct a; discriminate. Qed.
+Lemma proxy_spec_not_stuck : forall a msg b, proxy_spec a msg b <> OStuck.
+Proof.
+  intros a msg [x|]; destruct a; cbn; try discriminate.
+  - destruct (nth_error proxy_table e); discriminate.
+  - unfold entry_unbound_spec. destruct (nth_error proxy_table e) as [pe|]; [destruct (pe_fallback pe)|]; discriminate.
+Qed.
 
 (* ------------------------------------------------------------------ one step, then every step list *)
 Section World.
@@ -337,24 +355,22 @@ Proof.
   - (* proxy access *)
     unfold step_ok. cbn [step sstep]. rewrite Hp. destruct (nth_error (sw_prox sw) i) as [d|]; cbn [fst snd].
     2:{ repeat split; try assumption; discriminate. }
-    destruct d as [v name | v]; cbn [gco].
+    destruct d as [v name msg | v tw msg]; cbn [gco pmsg].
     + destruct (call_rel_ro _ _ 1 [name] (lvar v) w sw c C1 (ok_getattr M OK) eq_refl (fun o => ltac:(unfold sp_getattr; destruct (as_dict o); reflexivity)) HR) as [H1 H2].
       destruct (call (m_getattr M) [name] (lvar v) w c) as [w' o']. cbn [fst snd] in *. subst o'.
-      fold (conv_local (snd (scall sp_getattr [name] (lvar v) sw c))).
       unfold scall. destruct (nth_error (sw_ctx sw) c) as [sm|] eqn:E.
       * pose proof (Forall_nth _ _ _ _ _ HK E) as Ksm.
-        pose proof (proxy_spec_not_stuck a (bound_in sm (PLocal v name))) as HS.
-        pose proof (proxy_local_out sm v name a Ksm) as HP.
+        pose proof (proxy_spec_not_stuck a msg (bound_in sm (PLocal v name msg))) as HS.
+        pose proof (proxy_local_out sm v name msg a Ksm) as HP.
         destruct (sp_getattr [name] (rget sm (lvar v))) as [o1 r1]. cbn [fst snd] in *.
         split; [split; assumption|]. split; [exact HP | exact HS].
       * split; [split; assumption|]. cbn. split; [reflexivity | discriminate].
     + destruct (call_rel_ro _ _ 0 [] (svar v) w sw c C8 (ok_top M OK) eq_refl (fun o => ltac:(unfold sp_top; destruct (as_list o); reflexivity)) HR) as [H1 H2].
       destruct (call (m_top M) [] (svar v) w c) as [w' o']. cbn [fst snd] in *. subst o'.
-      fold (conv_stack (snd (scall sp_top [] (svar v) sw c))).
       unfold scall. destruct (nth_error (sw_ctx sw) c) as [sm|] eqn:E.
       * pose proof (Forall_nth _ _ _ _ _ HK E) as Ksm.
-        pose proof (proxy_spec_not_stuck a (bound_in sm (PStack v))) as HS.
-        pose proof (proxy_stack_out sm v a Ksm) as HP.
+        pose proof (proxy_spec_not_stuck a msg (bound_in sm (PStack v tw msg))) as HS.
+        pose proof (proxy_stack_out sm v tw msg a Ksm) as HP.
         destruct (sp_top [] (rget sm (svar v))) as [o1 r1]. cbn [fst snd] in *.
         split; [split; assumption|]. split; [exact HP | exact HS].
       * split; [split; assumption|]. cbn. split; [reflexivity | discriminate].
@@ -368,6 +384,17 @@ Proof.
     destruct (Forall2_nth _ _ _ _ _ c HF) as [[E1 E2] | [m [sm [E1 [E2 Hrel]]]]]; rewrite E1, E2; cbn [fst snd].
     + repeat split; try assumption; discriminate.
     + repeat split; try assumption; discriminate.
+  - (* middleware: close = the application's own close, then cleanup, in the regenerated order *)
+    unfold step_ok. cbn [step sstep].
+    destruct (Forall2_nth _ _ _ _ _ c HF) as [[E1 E2] | [m [sm [E1 [E2 Hrel]]]]]; rewrite E1, E2; cbn [fst snd].
+    + repeat split; try assumption; discriminate.
+    + replace closing_order with [CbIterableClose; CbGiven] by reflexivity.
+      cbn [fold_left close_cb_run sclose_cb_run].
+      split; [|split; [reflexivity | discriminate]].
+      apply cleanup_good. destruct ac as [[[v name] val]|]; [|split; assumption].
+      split.
+      * apply (call_rel _ _ 2 [name; val] _ w sw c C2 (ok_setattr M OK) eq_refl HR).
+      * apply scall_kinded; [assumption | apply sk_setattr].
 Qed.
 End World.
 
@@ -443,6 +470,8 @@ Proof.
   - destruct (nth_error (sw_prox sw) i); [destruct (nth_error (sw_ctx sw) c)|]; reflexivity.
   - destruct (nth_error (sw_ctx sw) c); reflexivity.
   - destruct (nth_error (sw_ctx sw) c); reflexivity.
+  - destruct (nth_error (sw_ctx sw) c); [|reflexivity]. cbn [fold_left sclose_cb_run fst].
+    rewrite scleanup_frame by assumption. destruct ac as [[[v name] val]|]; [apply scall_frame; assumption | reflexivity].
 Qed.
 
 (* ---- transferred to the implementation world *)
@@ -526,7 +555,7 @@ Qed.
 Lemma proxy_any : forall steps c i d a, let w := fst (run M steps) in
   nth_error (w_prox w) i = Some d ->
   forall m, nth_error (w_ctx w) c = Some m ->
-  snd (step M w (c, OpProxy i a)) = proxy_spec a (bound_of (fun var => deref (w_heap w) (rget m var)) d) /\
+  snd (step M w (c, OpProxy i a)) = proxy_spec a (pmsg d) (bound_of (fun var => deref (w_heap w) (rget m var)) d) /\
   forall c' var, view (fst (step M w (c, OpProxy i a))) c' var = view w c' var.
 Proof.
   intros steps c i d a w Hd m Hm. subst w.
@@ -536,7 +565,7 @@ Proof.
   destruct (Forall2_nth _ _ _ _ _ c HF) as [[E1 E2] | [m' [sm [E1 [E2 Hrel]]]]]; [congruence|].
   rewrite Hm in E1. inversion E1. subst m'. split.
   - rewrite Eo. cbn [sstep]. rewrite <- Hp, Hd, E2. cbn [snd]. f_equal. unfold bound_in.
-    destruct d as [v name | v]; unfold bound_of.
+    destruct d as [v name msg | v tw msg]; unfold bound_of.
     + destruct (Hrel (lvar v)) as [_ Hdv]. rewrite Hdv. reflexivity.
     + destruct (Hrel (svar v)) as [_ Hdv]. rewrite Hdv. reflexivity.
   - intros c' var. rewrite (good_view _ _ _ _ G'), (good_view _ _ _ _ G). cbn [sstep].
@@ -576,14 +605,16 @@ Proof.
   split; [vm_compute; discriminate | vm_compute; reflexivity].
 Qed.
 
-Lemma proxy_spec_cases : forall b,
-  (proxy_spec PaCurrent b = ORuntimeError <-> b = None) /\
-  (b = None -> proxy_spec PaBool b = OBool false /\ proxy_spec PaRepr b = ORepr None
-               /\ proxy_spec PaGetAttr b = ORuntimeError /\ proxy_spec PaSetAttr b = ORuntimeError) /\
-  (forall x, b = Some x -> proxy_spec PaCurrent b = OVal x /\ proxy_spec PaBool b = OBool (truthy x)
-               /\ proxy_spec PaRepr b = ORepr (Some x) /\ proxy_spec PaGetAttr b = OVal x).
+Lemma proxy_spec_cases : forall msg b,
+  (proxy_spec PaCurrent msg b = ORuntimeError <-> b = None) /\
+  (b = None -> proxy_spec PaBool msg b = OBool false /\ proxy_spec PaRepr msg b = ORepr None
+               /\ proxy_spec PaGetAttr msg b = ORuntimeError /\ proxy_spec PaSetAttr msg b = ORuntimeError
+               /\ proxy_spec PaMessage msg b = OMsg msg) /\
+  (forall x, b = Some x -> proxy_spec PaCurrent msg b = OVal x /\ proxy_spec PaBool msg b = OBool (truthy x)
+               /\ proxy_spec PaRepr msg b = ORepr (Some x) /\ proxy_spec PaGetAttr msg b = OVal x
+               /\ proxy_spec PaSetAttr msg b = OVal x).
 Proof.
-  intros [x|]; cbn; repeat split; try discriminate; try congruence; intros; try discriminate.
+  intros msg [x|]; cbn; repeat split; try discriminate; try congruence; intros; try discriminate.
   all: try (match goal with H : Some _ = Some _ |- _ => inversion H; subst; reflexivity end).
 Qed.
 
@@ -597,3 +628,146 @@ Proof. vm_compute. repeat split. Qed.
 Lemma mw_no_effect : forall M w c,
   fst (step M w (c, OpMwOpen)) = w /\ fst (step M w (c, OpMwDrop)) = w.
 Proof. intros M w c. cbn [step]. destruct (nth_error (w_ctx w) c); split; reflexivity. Qed.
+
+(* ------------------------------------------------------------------ the snapshot persists *)
+Lemma srun_from_app : forall a b sw,
+  fst (srun_from sw (a ++ b)) = fst (srun_from (fst (srun_from sw a)) b).
+Proof.
+  induction a as [|s t IH]; intros b sw; cbn [app srun_from]; [reflexivity|].
+  destruct (sstep sw s) as [sw' o]. specialize (IH b sw').
+  destruct (srun_from sw' (t ++ b)) as [w1 o1]. destruct (srun_from sw' t) as [w2 o2]. cbn [fst] in *.
+  assumption.
+Qed.
+
+Lemma sothers_keep : forall more sw n m0, nth_error (sw_ctx sw) n = Some m0 ->
+  Forall (fun s : nat * op => fst s <> n) more ->
+  nth_error (sw_ctx (fst (srun_from sw more))) n = Some m0.
+Proof.
+  induction more as [|[c o] t IH]; intros sw n m0 E F; cbn [srun_from]; [assumption|].
+  inversion F as [|x l Hx Ht]; subst. cbn [fst] in Hx.
+  assert (E' : nth_error (sw_ctx (fst (sstep sw (c, o)))) n = Some m0).
+  { rewrite sstep_frame; [assumption | assumption |]. apply nth_error_Some. congruence. }
+  destruct (sstep sw (c, o)) as [sw' o']. cbn [fst] in E'.
+  specialize (IH sw' n m0 E' Ht). destruct (srun_from sw' t) as [w2 o2]. assumption.
+Qed.
+
+(* a child created by context c keeps seeing exactly what c saw at that moment, whatever every OTHER
+   context (its parent, its siblings, contexts created later - nested to any depth) does afterwards *)
+Lemma snapshot_persists_any : forall M, methods_ok M -> forall steps c more var,
+  let w := fst (run M steps) in let n := length (w_ctx w) in
+  c < n -> Forall (fun s : nat * op => fst s <> n) more ->
+  view (fst (run M (steps ++ (c, OpSpawn) :: more))) n var = view w c var.
+Proof.
+  intros M OK steps c more var w n Hc F. subst w n.
+  pose proof (run_good M OK steps) as G.
+  rewrite (good_view _ _ _ _ (run_good M OK (steps ++ (c, OpSpawn) :: more))), (good_view _ _ _ _ G).
+  rewrite (good_nctx _ _ G) in *. unfold srun. rewrite srun_from_app. fold (srun steps).
+  set (sw := fst (srun steps)) in *.
+  destruct (nth_error (sw_ctx sw) c) as [m|] eqn:E; [|apply nth_error_None in E; lia].
+  cbn [srun_from]. cbn [sstep]. rewrite E.
+  assert (E1 : nth_error (sw_ctx (mksworld (sw_ctx sw ++ [m]) (sw_prox sw))) (length (sw_ctx sw)) = Some m).
+  { cbn. rewrite nth_error_app2 by lia. rewrite Nat.sub_diag. reflexivity. }
+  pose proof (sothers_keep more _ _ _ E1 F) as E2.
+  destruct (srun_from (mksworld (sw_ctx sw ++ [m]) (sw_prox sw)) more) as [w2 o2]. cbn [fst] in *.
+  unfold sview. rewrite E2, E. reflexivity.
+Qed.
+
+(* ------------------------------------------------------------------ request end *)
+Definition var_of (l : bool * nat) : nat := if fst l then svar (snd l) else lvar (snd l).
+Definition empty_for (l : bool * nat) : obj := if fst l then OList [] else ODict [].
+
+Lemma var_of_kind : forall l l', var_of l = var_of l' -> fst l = fst l'.
+Proof.
+  intros [[|] v] [[|] v']; unfold var_of, svar, lvar; cbn; intro H; try reflexivity; lia.
+Qed.
+
+Lemma srelease_one_at : forall sw c l sm, nth_error (sw_ctx sw) c = Some sm ->
+  nth_error (sw_ctx (srelease_one sw c l)) c = Some (rset sm (var_of l) (empty_for l)).
+Proof.
+  intros sw c [[|] v] sm E; unfold srelease_one, var_of, empty_for, scall; cbn [fst snd]; rewrite E; cbn;
+    (rewrite nth_error_upd_nth_eq; [reflexivity | apply nth_error_Some; congruence]).
+Qed.
+
+Lemma srelease_fold_empty : forall ls sw c sm done, nth_error (sw_ctx sw) c = Some sm ->
+  (forall l, In l done -> rget sm (var_of l) = Some (empty_for l)) ->
+  exists sm', nth_error (sw_ctx (fold_left (fun w' l => srelease_one w' c l) ls sw)) c = Some sm' /\
+              forall l, In l (done ++ ls) -> rget sm' (var_of l) = Some (empty_for l).
+Proof.
+  induction ls as [|l0 t IH]; intros sw c sm done E D; cbn [fold_left].
+  - exists sm. split; [assumption|]. rewrite app_nil_r. assumption.
+  - destruct (IH (srelease_one sw c l0) c _ (done ++ [l0]) (srelease_one_at sw c l0 sm E)) as [sm' [E' D']].
+    + intros l Hin. rewrite rget_rset. destruct (Nat.eqb (var_of l0) (var_of l)) eqn:Ev.
+      * apply Nat.eqb_eq in Ev. f_equal. unfold empty_for. rewrite (var_of_kind _ _ Ev). reflexivity.
+      * apply in_app_or in Hin. destruct Hin as [Hin | [Hin | []]]; [apply D; assumption|].
+        subst. rewrite Nat.eqb_refl in Ev. discriminate.
+    + exists sm'. split; [assumption|]. intros l Hin. apply D'. rewrite <- app_assoc. assumption.
+Qed.
+
+(* closing a response wrapped by LocalManager(ls).make_middleware in context c: afterwards every managed
+   local is empty in c - whatever the application's own close() stored there - and (frame_any) no other
+   context is touched.  Needs closing_order = application's close first, cleanup last. *)
+Lemma request_end_any : forall M, methods_ok M -> forall steps c ls ac l,
+  let w := fst (run M steps) in
+  c < length (w_ctx w) -> In l ls ->
+  view (fst (step M w (c, OpMwClose ls ac))) c (var_of l) = Some (Some (empty_for l)).
+Proof.
+  intros M OK steps c ls ac l w Hc Hin. subst w.
+  pose proof (run_good M OK steps) as G.
+  destruct (step_rel M OK _ _ (c, OpMwClose ls ac) G) as [G' _].
+  rewrite (good_view _ _ _ _ G'). rewrite (good_nctx _ _ G) in Hc. cbn [sstep].
+  set (sw := fst (srun steps)) in *.
+  destruct (nth_error (sw_ctx sw) c) as [sm|] eqn:E; [|apply nth_error_None in E; lia].
+  cbn [fst fold_left sclose_cb_run].
+  set (sw1 := match ac with Some (v, name, val) => fst (scall sp_setattr [name; val] (lvar v) sw c) | None => sw end).
+  assert (E1 : exists sm1, nth_error (sw_ctx sw1) c = Some sm1).
+  { subst sw1. destruct ac as [[[v name] val]|]; [|eauto]. unfold scall. rewrite E.
+    destruct (sp_setattr [name; val] (rget sm (lvar v))) as [o' r']. cbn.
+    rewrite nth_error_upd_nth_eq; [eauto | apply nth_error_Some; congruence]. }
+  destruct E1 as [sm1 E1].
+  destruct (srelease_fold_empty ls sw1 c sm1 [] E1 (fun l H => match H with end)) as [sm' [E' D']].
+  unfold sview. rewrite E'. rewrite (D' l Hin). reflexivity.
+Qed.
+
+(* ------------------------------------------------------------------ every proxied operation *)
+Lemma proxy_every_any : forall M, methods_ok M -> forall steps c i d e pe, let w := fst (run M steps) in
+  nth_error (w_prox w) i = Some d -> nth_error proxy_table e = Some pe ->
+  forall m, nth_error (w_ctx w) c = Some m ->
+  snd (step M w (c, OpProxy i (PaEntry e))) =
+    match bound_of (fun var => deref (w_heap w) (rget m var)) d with
+    | Some x => OFwd e x
+    | None => match pe_fallback pe with FbNone => ORuntimeError | k => OFallback k end
+    end.
+Proof.
+  intros M OK steps c i d e pe w Hd Hpe m Hm.
+  destruct (proxy_any M OK steps c i d (PaEntry e) Hd m Hm) as [H _]. fold w in H. rewrite H.
+  unfold proxy_spec, bound_out, entry_unbound_spec. rewrite Hpe.
+  destruct (bound_of _ d); reflexivity.
+Qed.
+
+(* facts of the regenerated table (re-proved on every run): numbered consecutively; no entry answers
+   True or something unrecognised for an unbound proxy; bool is False, repr the fallback text,
+   attribute access and assignment raise *)
+Lemma proxy_table_facts :
+  map pe_id proxy_table = seq 0 (length proxy_table) /\
+  forallb (fun pe => match pe_fallback pe with FbTrue | FbOther => false | _ => true end) proxy_table = true /\
+  entry_unbound_spec entry_bool = OFallback FbFalse /\ entry_unbound_spec entry_repr = OFallback FbUnboundRepr /\
+  entry_unbound_spec entry_getattr = ORuntimeError /\ entry_unbound_spec entry_setattr = ORuntimeError /\
+  60 <= length proxy_table.
+Proof. vm_compute. repeat split; repeat constructor. Qed.
+
+(* non-vacuity of the request-end, snapshot and every-operation statements *)
+Definition mw_schedule : list (nat * op) :=
+  [(0, OpSet 0 1%N 7%N); (0, OpMkProxy (PStack 0 true (Some 4%N))); (0, OpSpawn); (1, OpPush 0 5%N)].
+Lemma round2_examples :
+  let w := fst (run gen_methods mw_schedule) in
+  let w' := fst (step gen_methods w (1, OpMwClose [(false, 0); (true, 0)] (Some (0, 2%N, 9%N)))) in
+  view w 1 (lvar 0) = Some (Some (ODict [(1, 7)]%N)) /\
+  view w' 1 (lvar 0) = Some (Some (ODict [])) /\ view w' 1 (svar 0) = Some (Some (OList [])) /\
+  view w' 0 (lvar 0) = Some (Some (ODict [(1, 7)]%N)) /\
+  snd (step gen_methods w (1, OpProxy 0 (PaEntry 31))) = OFwd 31 1006%N /\
+  snd (step gen_methods w (0, OpProxy 0 (PaEntry 31))) = ORuntimeError /\
+  snd (step gen_methods w (0, OpProxy 0 (PaEntry entry_repr))) = OFallback FbUnboundRepr /\
+  snd (step gen_methods w (0, OpProxy 0 PaMessage)) = OMsg (Some 4%N) /\
+  view (fst (run gen_methods (mw_schedule ++ [(0, OpSet 0 1%N 8%N); (0, OpLRelease 0)]))) 1 (lvar 0)
+    = Some (Some (ODict [(1, 7)]%N)).
+Proof. vm_compute. repeat split. Qed.
